@@ -34,6 +34,13 @@ def plan(tier, seed):
             for dry in (True, False):
                 jobs.append({"id": f"dep|{cid}|{mkey}|{'dry' if dry else 'real'}", "pair": f"dep|{cid}|{mkey}", "cid": cid, "dry": dry, "files": files,
                              "argv": ["{proj}", "--output", "{out}", "--codemod-include", cid] + (["--dry-run"] if dry else []), "monitors": {"snap": False, "fs": True}, "want_before": True, "want_stat": True})
+    # the manifest is itself a source file the same codemod rewrites (setup.py holding the trigger): the dependency entry is computed on the transformed text in a real run
+    SETUP_SRC = {"pixee:python/sandbox-process-creation": b'import subprocess\nfrom flask import request\nfrom setuptools import setup\n\ndef v():\n    subprocess.run(request.args["c"])\n\nsetup(\n    name="x",\n    install_requires=[\n        "requests",\n    ],\n)\n',
+                 "pixee:python/use-defusedxml": b'import xml.sax\nfrom setuptools import setup\n\nxml.sax.parse("f")\n\nsetup(\n    name="x",\n    install_requires=[\n        "requests",\n    ],\n)\n'}
+    for cid, src in SETUP_SRC.items():
+        for dry in (True, False):
+            jobs.append({"id": f"manifest-is-source|{cid}|{'dry' if dry else 'real'}", "pair": f"mis|{cid}", "cid": cid, "dry": dry, "files": {"setup.py": b64(src)}, "manifest_is_source": True,
+                         "argv": ["{proj}", "--output", "{out}", "--codemod-include", cid] + (["--dry-run"] if dry else []), "monitors": {"snap": False, "fs": True}, "want_before": True, "want_stat": True})
     # SAST-driven codemods with their tool result files
     from vf.checks import grid
     for k, j in enumerate(grid.sast_jobs("quick", seed)):
@@ -95,8 +102,22 @@ def judge(job, res):
     if len(_pairs[key]) == 2:
         (rd, _), (rr, real_changed) = _pairs[key]["dry"], _pairs[key]["real"]
         if real_changed: nt.append(key); st["fired:" + job["cid"]] += 1
+        if rd != rr and job.get("manifest_is_source"):
+            # mechanism: the two reports agree once hunk positions and change line numbers of the changesets are ignored -> only WHERE the dependency entry is reported differs
+            # (the dry run computes it on the original text, the real run on the text the codemod has already rewritten)
+            import re as _re
+            def loose(x):
+                d_ = json.loads(x)
+                for r_ in d_["results"]:
+                    for cs_ in r_["changeset"]:
+                        cs_["diff"] = _re.sub(r"@@ -\d+(,\d+)? \+\d+(,\d+)? @@", "@@", cs_["diff"])
+                        for c_ in cs_["changes"]: c_["lineNumber"] = 0
+                return json.dumps(d_, sort_keys=True)
+            if loose(rd) == loose(rr):
+                v.append(Violation("C04", "dry-report-differs/manifest-is-source/dependency-entry-position", "dry-run report places the dependency entry of setup.py at other line numbers than the real run", {"codemod": job["cid"], "dry": rd[:1500], "real": rr[:1500]}))
+                return v, st, nt
         if rd != rr:
-            v.append(Violation("C04", f"dry-report-differs/{cm}", "dry-run report differs from the real run's", {"codemod": job["cid"], "dry": rd[:1500], "real": rr[:1500]}))
+            v.append(Violation("C04", f"dry-report-differs/{cm}" + ("/manifest-is-source" if job.get("manifest_is_source") else ""), "dry-run report differs from the real run's", {"codemod": job["cid"], "dry": rd[:1500], "real": rr[:1500]}))
     return v, st, nt
 
 def finalize(stats, counters):
